@@ -17,6 +17,7 @@ mod w2_ops;
 mod w2_str;
 mod w2_vec;
 mod w3;
+mod w5;
 mod w67;
 
 #[global_allocator]
@@ -115,6 +116,13 @@ fn cmd_run(args: &[String]) -> i32 {
                 }
             }
         };
+        if prop == "C14" && idx % 32 == 0 && idx / 32 < 3 * props::W5_CHUNKS as u64 {
+            // the decoder clause: exhaustive enumeration, cut into chunks addressed by run index
+            let j = (idx / 32) as u32;
+            let c = Case::W5(w5::W5Script { space: (j / props::W5_CHUNKS) as u8, chunk: j % props::W5_CHUNKS, of: props::W5_CHUNKS });
+            let res = run_case(&c, &ctx);
+            sink(&c, res);
+        }
         props::run_index(prop, rs, thorough, &ctx, &mut sink);
         if fp_log {
             let mut o = out.lock();
